@@ -61,6 +61,9 @@ fn emit(out: &mut Out, class: &str, b: &[u8], counts: &mut std::collections::BTr
             let mut expect = (b.len() as u64).to_le_bytes().to_vec();
             expect.extend_from_slice(b);
             out.oracle("C15:serde-produces-same", ser == expect, &key, &format!("ser={}", hex(&ser)));
+            let mut w: Vec<u8> = vec![];
+            let okw = bincode::serialize_into(&mut w, p).is_ok();
+            out.oracle("C15:serde-produces-same", okw && w == expect, &key, "serialize_into a writer gives other bytes");
             format!("ok reenc={} rounds={} tag={} deg={}", hex(&re), ((b.len() - 1) / 32 - 5 - b[0] as usize) / 2, p.extension_degree() as usize, deg)
         },
         Err(_) => format!("err deg={}", deg),
@@ -69,6 +72,12 @@ fn emit(out: &mut Out, class: &str, b: &[u8], counts: &mut std::collections::BTr
     framed.extend_from_slice(b);
     let de: Result<rrun::Proof, _> = bincode::deserialize(&framed);
     out.oracle("C15:serde-accepts-same", de.is_ok() == r.is_ok(), &key, &format!("serde={} from_bytes={}", de.is_ok(), r.is_ok()));
+    // the same through a reader (the deserializer then hands the visitor an owned or a transient buffer, not a borrowed one)
+    let de2: Result<rrun::Proof, _> = bincode::deserialize_from(&framed[..]);
+    out.oracle("C15:serde-accepts-same", de2.is_ok() == r.is_ok(), &key, &format!("serde(reader)={} from_bytes={}", de2.is_ok(), r.is_ok()));
+    if let (Ok(a), Ok(b2)) = (&de, &de2) {
+        out.oracle("C15:serde-accepts-same", a == b2 && a.to_bytes() == b, &key, "the two serde paths decode different proofs");
+    }
     out.req(format!("decode hex={}", if b.is_empty() { "-".to_string() } else { hex(b) }), real);
 }
 
